@@ -2,18 +2,35 @@
 import verif as V
 
 PROP = "C04"
-SPEC = "Bng.Spec.C04"
+SPEC = ["Bng.Spec.C04", "Bng.Spec.C04Auth"]
 COMPS = [
     V.Component("pppoesrv", monitors=["service-without-auth", "ipcp-without-auth", "foreign-mac"]),
+    V.Component("pppauth", monitors=["success-without-accept", "wrong-protocol", "stale-challenge", "id-mismatch"]),
 ]
 LEVEL = ("service_requires_auth, ipcp_ack_requires_auth, foreign_mac_inert and ghost_set_only_by_accepted_pap are "
          "theorems over the Lean model of the PPPoE server's discovery/session dispatch for ALL frame sequences, "
          "MACs, session ids and RADIUS outcomes; the model is tied to pkg/pppoe/server.go by differential execution "
          "of frame sequences through the real handlers (in-memory socket hook, scripted loopback RADIUS server), and "
-         "the monitor judges the real server's session table and emitted frames.")
+         "the monitor judges the real server's session table and emitted frames.  Component pppauth: "
+         "success_requires_accept, ghost_set_only_by_accepted_exchange, only_configured_protocol, "
+         "response_must_match_issued_challenge, reply_echoes_id and monitor_silent_on_model are theorems over the Lean model of the PAP/CHAP "
+         "Authenticator state machine of pkg/pppoe/auth.go for ALL sequences of Start / PAP request / CHAP response (any "
+         "identifier, any response value) / re-authentication / elapsed time, both protocols, with and without RADIUS and "
+         "every RADIUS outcome; the model is tied to the real pppoe.Authenticator by differential execution through its "
+         "public API against a loopback RADIUS server that reports which credentials each Access-Request carried, and the "
+         "monitor judges the real authenticator's packets, state, completion callback and RADIUS requests.")
 ASSUME = [
-    "frames are well-formed (decoding of malformed bytes is C09); PAP only (the server implements no CHAP exchange in server.go)",
-    "RADIUS outcome is a parameter of the PAP operation (accept / reject / no answer); the RADIUS client library is trusted",
+    "frames are well-formed (decoding of malformed bytes is C09); pkg/pppoe/server.go handles PAP itself and has no CHAP case "
+    "(a peer that negotiated CHAP can never authenticate there); the PAP/CHAP Authenticator of pkg/pppoe/auth.go is decided "
+    "separately by component pppauth (no production code instantiates it today)",
+    "RADIUS outcome is a parameter of the PAP/CHAP operation (accept / reject / no answer / honest verification of the "
+    "credentials shown); the RADIUS client library and the layeh attribute codec are trusted",
+    "pppauth: without a RADIUS client the code's own rule is the authority: every PAP password and every CHAP response to the "
+    "open challenge is accepted (theorems without_radius_every_response_is_accepted / _password_is_accepted state this; "
+    "pinned by auth_test.go); challenge values are opaque (rand.Read not modelled, harness checks length 16 and freshness); "
+    "time enters only through the failure rate limiter (verif hook ages the last failure; the exact 60 s boundary is not exercised); "
+    "the monitor is proved silent on every model history (monitor_silent_on_model) and fires on the pre-fix tree 98663f9; "
+    "the driver's rendering/parsing of observations is in the trusted base",
     "handlers run on the single receive goroutine (no concurrent frame handling is modelled)",
 ]
 
